@@ -121,7 +121,7 @@ func genTree(g *model.Gen, leaves []leaf, depth int) (error, string, bool) {
 var c13Signer = keys.New("ES256", 0).Signer
 
 func runC13(c *mon.Ctx) {
-	c.Rule("(1) every claim x every value class alone (exact class of the getter and of Validate required) and 2-4 combined faults (class of some offending claim required) on claims-sets of both base profiles AND of the two extension profiles embedding them (same rules, other canonical name), built directly, CBOR-decoded and JSON-decoded; (2) every setter of both profiles and of the component x value classes (error class of a refusal); (3) component Validate/getters per field fault; (4) FilterError on generated error trees (leaves: the 11 exported sentinels, foreign and same-text errors; nodes: %w, %v, errors.Join, custom Unwrap() []error, custom Unwrap, custom Is) with ground truth computed on the generated tree. distinct_nontrivial = distinct (profile, claim=class) signatures / distinct tree shapes")
+	c.Rule("(1) every claim x every value class alone (exact class of the getter and of Validate required) and 2-4 combined faults (class of some offending claim required) on claims-sets of both base profiles AND of the two extension profiles embedding them (same rules, other canonical name), built directly, CBOR-decoded and JSON-decoded; (2) every setter of both profiles and of the component x value classes (error class of a refusal); (3) component Validate/getters per field fault; (3b) an extension's component type reporting absent-optional / not-in-profile with the class sentinels (bare and wrapped) through ValidateSwComponent and the container; (4) FilterError on generated error trees (leaves: the 11 exported sentinels, foreign and same-text errors; nodes: %w, %v, errors.Join, custom Unwrap() []error, custom Unwrap, custom Is) with ground truth computed on the generated tree. distinct_nontrivial = distinct (profile, claim=class) signatures / distinct tree shapes")
 	g := model.NewGen(c.Seed*31337 + int64(c.Shard))
 	idx := 0
 	classOK := func(sig string, a *model.Claims, single bool) {
@@ -405,6 +405,41 @@ func runC13(c *mon.Ctx) {
 		}
 		c.Eval()
 	}
+	// (3b) a component type of an extension that reports "optional, absent" and "not
+	// in this profile" with the class sentinels themselves (bare or wrapped): the
+	// generic component validator must ignore exactly those
+	for i := 0; i < c.N(4000, 100000); i++ {
+		code := [5]int{g.R.Intn(2), g.R.Intn(3), g.R.Intn(2), g.R.Intn(3), g.R.Intn(2)}
+		if g.R.Intn(2) == 0 {
+			code[1], code[3] = 1, 1
+		}
+		cp := g.CompFromCode(code)
+		lc := &extprof.LaxComponent{SwComponent: *obs.RealComp(&cp)}
+		_, want := model.CompExpect(&cp)
+		var verr, cerr error
+		if p, pv, fr := mon.Guard(func() {
+			verr = psatoken.ValidateSwComponent(lc)
+			ct := &psatoken.SwComponents[*extprof.LaxComponent]{}
+			cerr = ct.Add(lc)
+		}); p {
+			c.Violation("C13/panic/"+mon.PanicKey(fr), "panic validating an extension's component type", map[string]any{"panic": pv, "frame": fr})
+			continue
+		}
+		c.Eval()
+		c.Count("lax-component-cases")
+		c.Sig(fmt.Sprintf("lax-component|%v", code))
+		for gi, e := range []error{verr, cerr} {
+			gate := []string{"ValidateSwComponent", "SwComponents.Add"}[gi]
+			got := obs.ClassOf(e)
+			if e == nil {
+				got = model.OK
+			}
+			if got != want {
+				c.Violation(fmt.Sprintf("C13/lax-component/%s:%s->%s", gate, want, got), fmt.Sprintf("%s on a component type that reports absent-optional / not-in-profile with the class sentinels: class %s, expected %s (%v)", gate, got, want, e), map[string]any{"fields": fmt.Sprint(code)})
+			}
+		}
+	}
+	c.Floor("lax-component-cases", 1000)
 	nt := c.N(100000, 3000000)
 	for i := 0; i < nt; i++ {
 		e, desc, filterable := genTree(g, leaves, 0)
